@@ -18,5 +18,24 @@ PROPS = {
             "Kani does not prove termination (functions are loop-free)",
         ],
         "trusted_base": COMMON_TRUSTED,
+        "technique": "Kani/CBMC loop-free full-domain harness per impl against a spec oracle (complete proof)",
+        "level_text": "Every ViewBounds impl (61) and range_bounds proved equal to a Python-slice oracle over i128 for all "
+                      "values of the selector type and all axis lengths <= isize::MAX; includes absence of overflow/panic. "
+                      "Loop-free symbolic execution over the full input domain is a complete proof.",
+        "level_note": "Trusts rustc/Kani/CBMC; n <= isize::MAX assumed; the oracle is transcribed from the statement.",
     },
+}
+
+NOT_APPLICABLE = {
+    "C01": "monolithic TerminalRenderer::frame over trait objects/HashMap/Arc; the property needs a terminal screen model as ghost state over whole histories; no callee carries it",
+    "C03": "relational over read schedules of a run-time-built DFA + SmallVec + boxed matchers; tokeniser half quantifies over NFA::compile; outside Verus and intractable for CBMC",
+    "C12": "single function mixing f32 quantisation, HashMap iteration order, LRU and core::fmt; property defined through a sixel interpreter; nothing smaller carries a contract",
+    "C15": "soundness of Thompson/power-set construction over BTreeMap/BTreeSet/Rc; no specs in Verus, intractable in CBMC",
+    "C17": "threads, signals, select, termios, Drop ordering - no concurrency/OS model in either verifier",
+    "C18": "recursive BTreeMap trie via entry/closure APIs over all histories; str parsers - outside both verifiers",
+    "C19": "serde visitors / serde_json / str formatting and parsing - outside both verifiers",
+    # claimed later as their checks are built; until then honestly not claimed
+    "C02": "check not built yet", "C04": "check not built yet", "C05": "check not built yet", "C06": "check not built yet",
+    "C07": "check not built yet", "C09": "check not built yet", "C10": "check not built yet", "C11": "check not built yet",
+    "C13": "check not built yet", "C14": "check not built yet", "C16": "check not built yet", "C20": "check not built yet",
 }
